@@ -21,7 +21,7 @@ from common import AnalysisError, Finding, norm
 
 EXPLANATION = ("transform algebra of the compound setters by frame typing, and structural coverage of the recursion over children in move/_rotate/"
                "setters (same arguments forwarded, top-level anchor path forwarded through nested collections). Decides that children are carried "
-               "by the same rigid motion as the collection; per-index path padding is not decided.")
+               "by the same rigid motion as the collection; per-index path padding of the compound setters is decided on a finite case abstraction (LEN-PATH).")
 
 
 FULL_FORMS = ("getattr(self, 'children', [])", "self.children", "self._children")
@@ -329,7 +329,7 @@ MANIFEST = {
     "text": "Static decision of the structural clauses of C10: the compound position/orientation setters apply the typed rigid-motion algebra to the "
             "children (translation by the collection's displacement; rotation by new*old^-1 about the collection's position), and move/_rotate/setters/"
             "reset_path recurse over all children with the same arguments, forwarding the top-level anchor path through nested collections. "
-            "Per-index padding of child paths and numeric invariance are not decided. Also decided: in-place pose writes only on the updated object, pose validators and the position getter hand out fresh arrays (alias analysis), no early return before the children loops. Round 3: if/else lanes that build differently typed rotations are each judged at the child.rotate call (Alt values), and the children loop of the setters is a must-pass-through check (a lane selection is fine, a skipping branch is not).",
+            "Numeric invariance is not decided (per-index padding of child paths: see rounds 6-7 at the end). Also decided: in-place pose writes only on the updated object, pose validators and the position getter hand out fresh arrays (alias analysis), no early return before the children loops. Round 3: if/else lanes that build differently typed rotations are each judged at the child.rotate call (Alt values), and the children loop of the setters is a must-pass-through check (a lane selection is fine, a skipping branch is not). Rounds 6-7: the compound setters are evaluated on lengths and row recipes for 120 cases (object and every child end with both paths at the new length, each row computed from the same input rows as in the reference tree; A5, A5b).",
     "design_ref": "DESIGN.md §3 C10",
     "note": "Trusted: FRAME interpreter + declarations; summaries of validators and pad_slice_path.",
     "technique": "static analysis: frame-type abstract interpretation + structural recursion/forwarding check over the syntax tree",
